@@ -205,6 +205,13 @@ func (h *verifC44) digest() string {
 		bs = append(bs, fmt.Sprintf("%d/%d/%d/%d/%d/%d/[%s]", h.workerOf(b.endpointName), h.compOf(b.controller), verifNonce(b.registrationNonce),
 			b.currentSeq, b.confirmedSeq, b.demandUpTo, strings.Join(unc, ",")))
 	}
+	// free demand of EVERY binding in the map (not only those in bindingOrder), by worker number
+	fd := make([]string, 0, 3)
+	for w := 1; w <= 3; w++ {
+		if b := x.bindings[h.wname[w]]; b != nil {
+			fd = append(fd, fmt.Sprintf("%d:%d", w, b.freeDemand()))
+		}
+	}
 	st := "-"
 	if x.storedMessage != nil {
 		st = h.show(x.storedMessage)
@@ -213,8 +220,8 @@ func (h *verifC44) digest() string {
 	if len(x.pendingPayload.rawBytes()) > 0 {
 		pendPl = h.payloadOfFrame(x.pendingPayload.rawBytes())
 	}
-	return fmt.Sprintf("W{ss=%d pend=[%s] b=[%s] nm=%d nw=%d hs=%d tok=%d pid=%d pss=%d ppl=%d st=%s lt=%d lid=%d f=%d}",
-		x.storeSeq, strings.Join(pend, ","), strings.Join(bs, "|"), len(x.bindings), x.nextWorker, x.handshake, h.tokens.of(x.token),
+	return fmt.Sprintf("W{ss=%d pend=[%s] b=[%s] fd=[%s] nm=%d nw=%d hs=%d tok=%d pid=%d pss=%d ppl=%d st=%s lt=%d lid=%d f=%d}",
+		x.storeSeq, strings.Join(pend, ","), strings.Join(bs, "|"), strings.Join(fd, ","), len(x.bindings), x.nextWorker, x.handshake, h.tokens.of(x.token),
 		verifMsgID(x.pendingMessageID), x.pendingStoreSeq, pendPl, st, h.tokens.of(x.lastCompletedToken),
 		verifMsgID(x.lastCompletedMessageID), verifB(x.failed))
 }
